@@ -33,7 +33,7 @@ t=subprocess.run(['python3','/verif/tools/seeded_table.py'],capture_output=True,
 tbl,_,tail=t.partition('\n\n')
 i=s.index('| change | where | verdict | by check |')
 rest=s[i:]
-m=re.search(r'\n\d+ of \d+ stored changes are reported by the check of their property\.\n',rest)
+m=re.search(r'\n\d+ of \d+ stored changes are reported by the check of their property[^\n]*\.\n',rest)
 s=s[:i]+t.rstrip('\n')+'\n'+rest[m.end():]
 n=len(glob.glob('/verif/seeded/C*/[0-9]*'))
 s=s.replace('SEEDED_TOTAL changes are stored',f'{n} changes are stored')
